@@ -379,12 +379,36 @@ def rule_r5(ctx, rid="C03.R5") -> List[R.Inst]:
     return insts
 
 
+def _has_call(e, *names):
+    return e is not None and any(isinstance(x, ast.Call) and (
+        (isinstance(x.func, ast.Attribute) and x.func.attr in names) or (isinstance(x.func, ast.Name) and x.func.id in names)) for x in ast.walk(e))
+
+
+# roles of the locals of SMMap.write (sa/normal.py: with_roles) — the rules below name them by role
+SM_WRITE_ROLES = (
+    ("notes", lambda n, v, st: isinstance(v, ast.Call) and _has_call(v, "DataFrame") and any(
+        k.arg == "columns" and "beat" in ast.unparse(k.value) for x in ast.walk(v) if isinstance(x, ast.Call) for k in x.keywords)),
+    ("notes_gb", lambda n, v, st: isinstance(v, ast.Call) and isinstance(v.func, ast.Attribute) and v.func.attr == "groupby" and
+     v.args and "measure" in ast.unparse(v.args[0])),
+    ("keys", lambda n, v, st: isinstance(v, ast.Call) and isinstance(v.func, ast.Attribute) and v.func.attr == "get_keys"),
+    ("den_max", lambda n, v, st: isinstance(v, ast.Call) and isinstance(v.func, ast.Name) and v.func.id == "min" and _has_call(v, "reduce")),
+    ("lines", lambda n, v, st: isinstance(v, ast.ListComp) and isinstance(v.elt, ast.ListComp) and isinstance(v.elt.elt, ast.Constant) and
+     v.elt.elt.value == "0"),
+)
+
+
+def _sm_write(ctx):
+    from ..normal import with_roles
+    return with_roles(ctx.M.nfn(S.SMMAP + ".write"), SM_WRITE_ROLES)
+
+
+
 def rule_r7(ctx) -> List[R.Inst]:
     """an object at absolute beat B is written to measure B // 4, row (B mod 4)/4 * rows: shapes of the row-index computation"""
     from .. import sym
     M = ctx.M
     rid = "C03.R7"
-    wr = M.nfn(S.SMMAP + ".write")
+    wr = _sm_write(ctx)
     file = M.mods[wr.mod].rel
     insts = []
     stores = {}
@@ -469,7 +493,7 @@ def rule_r6(ctx) -> List[R.Inst]:
     """row width: every note row of a chart has as many characters as the chart type has keys"""
     M = ctx.M
     rid = "C03.R6"
-    wr = M.nfn(S.SMMAP + ".write")
+    wr = _sm_write(ctx)
     file = M.mods[wr.mod].rel
     keys_defs = [n for n in walk_no_nested(wr.node) if isinstance(n, ast.Assign) and isinstance(n.targets[0], ast.Name)
                  and n.targets[0].id == "keys"]
